@@ -29,6 +29,49 @@ func SeqProfileFor(name string, seed int64) SeqProfile {
 		}
 		p.PRollback, p.PFailIns = 0, 0
 		p.Collide = r.Intn(8) == 0
+	case "c02": // atomicity: rollbacks, failing inserts, an observer looking in mid-transaction, nothing emitted on rollback
+		p.Cols = []ColDesc{{"a", "int", "add", numRepr()}, {"s", "str", "concat", "string"}, {"b", "bool", "", "bool"}}
+		p.Idx = []IdxDesc{{"big", "a", "ge", 5}, {"on", "b", "true", 0}}
+		p.Trigs = [][2]string{{"ta", "a"}}
+		p.PRollback, p.PFailIns, p.PObserve = 0.35, 0.3, 0.3
+		p.Replica = true
+	case "c03": // indexes: several per column, created and dropped at any point, on primary and replica
+		p.Cols = []ColDesc{{"a", "int", []string{"add", "affine"}[r.Intn(2)], []string{"int", "int32", "int64", "uint64", "float64", "record"}[r.Intn(6)]},
+			{"s", "str", []string{"", "concat"}[r.Intn(2)], "string"}, {"b", "bool", "", "bool"}, {"e", "enum", "", "enum"}}
+		p.Idx = []IdxDesc{{"big", "a", "ge", 5}, {"small", "a", "lt", 3}, {"sa", "s", "eq", []int{0}}, {"on", "b", "true", 0}, {"e1", "e", "eq", "e1"}}
+		p.PSchema = 0.25
+		p.PRollback, p.PFailIns = 0.05, 0
+		p.Replica = true
+	case "c11": // offsets: many inserts and deletes over fragmented fill, failing inserts, rollbacks
+		p.Cols = []ColDesc{{"a", "int", "add", numRepr()}, {"t", "tok", "", "string"}}
+		p.PInsert, p.PDelete, p.PFailIns, p.PRollback = 0.5, 0.3, 0.15, 0.15
+		p.Prologue = []string{"", "block1", "sparse", "sparse", "three"}[r.Intn(5)]
+		p.Steps = 30
+	case "c15": // stream: multi-block transactions, read-only and rolled-back transactions, both transports
+		p.Cols = []ColDesc{{"a", "int", "add", numRepr()}, {"s", "str", "", "string"}}
+		p.Prologue = []string{"block1", "three", "block1"}[r.Intn(3)]
+		p.PRollback, p.PFailIns = 0.2, 0.1
+		p.MaxBody = 5
+		p.Replica = r.Intn(2) == 0
+	case "c16": // sorted index: small alphabet forcing duplicates, created before or after the data
+		p.Cols = []ColDesc{{"s", "str", []string{"", "concat"}[r.Intn(2)], "string"}, {"a", "int", "add", "int"}}
+		p.Sorts = [][2]string{{"byS", "s"}}
+		p.SortFirst = r.Intn(2) == 0
+		p.PSchema = 0.1
+		p.PRollback, p.PFailIns = 0.05, 0
+	case "c19": // triggers: puts, merges, deletes, rollbacks; created and dropped mid-history
+		p.Cols = []ColDesc{{"a", "int", []string{"add", "affine", "replace"}[r.Intn(3)], numRepr()}, {"s", "str", []string{"", "concat"}[r.Intn(2)], "string"}}
+		p.Trigs = [][2]string{{"ta", "a"}, {"ts", "s"}, {"ta2", "a"}}
+		p.PSchema = 0.2
+		p.PRollback, p.PFailIns = 0.2, 0.1
+	case "c06": // replica convergence, sequential histories over all kinds
+		p.Cols = []ColDesc{{"a", "int", []string{"add", "affine"}[r.Intn(2)], numRepr()}, {"s", "str", []string{"", "concat"}[r.Intn(2)], "string"},
+			{"b", "bool", "", "bool"}, {"e", "enum", "", "enum"}, {"t", "tok", "", numRepr()}}
+		p.Idx = []IdxDesc{{"big", "a", "ge", 5}}
+		p.Replica = true
+		p.PRollback, p.PFailIns = 0.1, 0.05
+		p.Prologue = []string{"", "block1", "three"}[r.Intn(3)]
+		p.MaxBody = 4
 	}
 	return p
 }
